@@ -47,6 +47,16 @@ def gen_instant(rng):
     return s * SEC + rng.randrange(SEC)
 
 
+def gen_instant_past(rng):
+    s = rng.choice([Y2001, 10**9 - 1, 10**9, 1709600007, rng.randrange(Y2001, 1_750_000_000), rng.randrange(1_600_000_000, 1_750_000_000)])
+    k = rng.random()
+    if k < 0.4:
+        return s * SEC
+    if k < 0.7:
+        return s * SEC + rng.choice([1, 2, 4, 500, 999, 29, 57, rng.randrange(1000)]) * 10**6
+    return s * SEC + rng.randrange(SEC)
+
+
 def gen_duration(rng):
     parts, total = [], 0
     for name, mult in reversed(UNITS):
@@ -69,7 +79,9 @@ class P:
             "offsets); Prometheus durations over all units; malformed timestamps and durations. step cases: absent step over ranges from negative to 10 years incl. values "
             "one nanosecond around multiples of 250s; explicit steps as plain seconds (integers, fractions), Prometheus durations, zero/negative/NaN/Inf and malformed "
             "spellings. The expected value is computed by the generator from the property text (defaults, same-instant, floor((end-start)/250s), positivity), independently of the "
-            "model. Non-trivial = at least one flag present; distinct = distinct request.")
+            "model. cmd cases (one in ten): the real `query` command is run with --start / --end / --since / --step against a one-container daemon that records what it is "
+            "asked for; the resolved range must reach the daemon unchanged (whole seconds of start and end), bracketed by the clock readings before and after the run when "
+            "it depends on now, and a malformed flag must fail the command. Non-trivial = at least one flag present; distinct = distinct request.")
     trusted = ["strconv.ParseFloat: executable fragment = [sign]digits[.digits] with at most 15 significant digits (exact Clinger path), inf/nan; other spellings are counted as "
                "outside_model_fragment and only checked against the generator's expectation", "time.Parse(RFC3339Nano) oracle instance Base/TimeFmt.v",
                "model.ParseDuration transliterated from prometheus/common v0.55.0"]
@@ -80,11 +92,53 @@ class P:
         n = {"quick": 900, "thorough": 6000, "search": 4000}[tier]
         cases = []
         for i in range(n):
-            if i % 2 == 0:
+            if i % 10 == 9:
+                cases.append(self.gen_cmd(rng))
+            elif i % 2 == 0:
                 cases.append(self.gen_range(rng))
             else:
                 cases.append(self.gen_step(rng))
         return cases
+
+    def gen_cmd(self, rng):
+        """the whole `query` command: flags -> parseTimeRange -> parseStep -> engine -> the window each container is asked for"""
+        c = {"kind": "cmd", "start": None, "end": None, "since": None, "step": None, "expect": None}
+        bad = False
+        k = rng.random()
+        start = end = None
+        if k < 0.75:
+            # explicit start and end in the past (nothing depends on the clock): the daemon is asked for exactly floor(start) .. floor(end)
+            start = gen_instant_past(rng)
+            end = start + rng.choice([0, 1, 7, 499, 500, 3600, 3607, 86400 + 13, rng.randrange(1, 10**6)]) * SEC + rng.choice([0, 0, 1, 500 * 10**6, 999999999])
+            c["start"], _ = spell(rng, start)
+            c["end"], _ = spell(rng, end)
+            if rng.random() < 0.3:
+                c["since"] = rng.choice(["1h", "5m", "30s", "2d"] + BAD_DUR[:4])
+                bad = bad or c["since"] in BAD_DUR
+        elif k < 0.9:
+            # end explicit and in the past, start = end - since
+            end = gen_instant_past(rng)
+            c["end"], _ = spell(rng, end)
+            since = 6 * 3600 * SEC
+            if rng.random() < 0.7:
+                c["since"], since = gen_duration(rng)
+            start = end - since
+        # else: no range flag at all (now - 6h .. now): bracketed by the clock readings
+        j = rng.random()
+        if j < 0.25:
+            v = rng.choice([1, 2, 7, 14, 60, 250, 3600])
+            c["step"] = str(v)
+        elif j < 0.35:
+            c["step"], total = gen_duration(rng)
+            bad = bad or total <= 0
+        elif j < 0.42:
+            c["step"] = rng.choice(BAD_STEP)
+            bad = True
+        if bad:
+            c["expect"] = "reject"
+        elif start is not None:
+            c["expect"] = [start // SEC, end // SEC]
+        return c
 
     def gen_range(self, rng):
         now = gen_instant(rng)
@@ -150,6 +204,12 @@ class P:
 
     def request(self, c):
         e = lambda v: None if v is None else b64e(v)
+        if c["kind"] == "cmd":
+            args = []
+            for k in ("start", "end", "since", "step"):
+                if c[k] is not None:
+                    args.append(b64e("--%s=%s" % (k, c[k])))
+            return {"cmd": "querycmd", "args": args + [b64e("{}")]}
         if c["kind"] == "range":
             return {"cmd": "timerange", "now": c["now"], "start": e(c["start"]), "end": e(c["end"]), "since": e(c["since"])}
         return {"cmd": "step", "step": e(c["step"]), "start_ns": c["start_ns"], "end_ns": c["end_ns"]}
@@ -164,13 +224,24 @@ class P:
             ex = c["expect"]
             exs = "ENone" if ex is None else "EReject" if ex == "reject" else "(EVal %s)" % cpair(cZ(ex[0]), cZ(ex[1]))
             return "CRange %s %s %s %s %s %s" % (cZ(c["now"]), ob(c["start"]), ob(c["end"]), ob(c["since"]), obs, exs)
+        if c["kind"] == "cmd":
+            asked = r.get("asked") or []
+            obs = "None"
+            if ok:
+                if len(asked) != 1:
+                    raise ValueError("the command succeeded but asked %d containers for their log" % len(asked))
+                obs = "(Some %s)" % cpair(cZ(int(asked[0][0])), cZ(int(asked[0][1])))
+            ex = c["expect"]
+            exs = "ENone" if ex is None else "EReject" if ex == "reject" else "(EVal %s)" % cpair(cZ(ex[0]), cZ(ex[1]))
+            return "CCmd %s %s %s %s %s %s %s %s" % (cZ(r["now_lo"]), cZ(r["now_hi"]), ob(c["start"]), ob(c["end"]), ob(c["since"]), ob(c["step"]), obs, exs)
         obs = "(Some %s)" % cZ(r["step"]) if ok else "None"
         ex = c["expect"]
         exs = "ENone" if ex is None else "EReject" if ex == "reject" else "(EVal %s)" % cZ(ex)
         return "CStep %s %s %s %s %s" % (ob(c["step"]), cZ(c["start_ns"]), cZ(c["end_ns"]), obs, exs)
 
     def model_exprs(self, term):
-        return ["match (%s) with CRange now sp ep sn _ _ => inl (parse_time_range TimeFmt.parse_ts now sp ep sn) | CStep p s e _ _ => inr (parse_step p s e) end" % term]
+        return ["match (%s) with CRange now sp ep sn _ _ => inl (parse_time_range TimeFmt.parse_ts now sp ep sn) | CStep p s e _ _ => inr (parse_step p s e) "
+                "| CCmd lo hi sp ep sn stp _ _ => inl (parse_time_range TimeFmt.parse_ts lo sp ep sn) end" % term]
 
     def trivial(self, c, r):
         if c["kind"] == "range":
@@ -183,7 +254,7 @@ class P:
         return d
 
     def distribution(self, cases, resps):
-        d = {"range": 0, "step": 0, "expect_reject": 0, "expect_value": 0, "no_expectation": 0, "observed_error": 0, "flag_subsets": {}}
+        d = {"range": 0, "step": 0, "cmd": 0, "expect_reject": 0, "expect_value": 0, "no_expectation": 0, "observed_error": 0, "flag_subsets": {}}
         for c, r in zip(cases, resps):
             d[c["kind"]] += 1
             ex = c["expect"]
